@@ -28,12 +28,22 @@ func main() {
 	only := flag.String("only", "", "run only idx.sub")
 	variant := flag.String("variant", "plain", "build variant label")
 	count := flag.Bool("count", false, "print number of batches and exit")
+	cold := flag.String("cold", "", "execute one call descriptor alone and print its result (cold oracle)")
 	flag.Parse()
 
 	p := props.Registry[*prop]
 	if p == nil {
 		fmt.Fprintln(os.Stderr, "unknown property", *prop)
 		os.Exit(3)
+	}
+	if *cold != "" {
+		if p.Cold == nil {
+			os.Exit(3)
+		}
+		c := rt.NewCtx(*prop, *tier, *seed, *variant, nil, nil, "")
+		c.Begin(0)
+		os.Stdout.WriteString(p.Cold(c, *cold))
+		return
 	}
 	n := p.NumBatches(*tier, *seed)
 	if *count {
